@@ -23,7 +23,9 @@ var handler atomic.Value // of Handler
 var (
 	envOnce   sync.Once
 	envDelays map[string]time.Duration
-	envYield  int64 // permille of points at which to yield
+	envEvery  map[string]uint64 // "name=dur/N": only every N-th hit of the point is delayed
+	envHits   sync.Map          // name -> *uint64
+	envYield  int64             // permille of points at which to yield
 	counter   uint64
 )
 
@@ -37,14 +39,24 @@ func SetHandler(h Handler) {
 
 func loadEnv() {
 	envDelays = make(map[string]time.Duration)
-	// VERIF_HOOK_DELAYS="name=dur,name=dur"
+	envEvery = make(map[string]uint64)
+	// VERIF_HOOK_DELAYS="name=dur,name=dur/N" (dur/N: only every N-th hit is delayed, so that
+	// callers passing the point at the same time leave it in another order)
 	for _, kv := range strings.Split(os.Getenv("VERIF_HOOK_DELAYS"), ",") {
 		parts := strings.SplitN(kv, "=", 2)
 		if len(parts) != 2 {
 			continue
 		}
-		if d, err := time.ParseDuration(parts[1]); err == nil {
+		dur, every := parts[1], uint64(1)
+		if i := strings.IndexByte(dur, '/'); i >= 0 {
+			if n, err := strconv.ParseUint(dur[i+1:], 10, 64); err == nil && n > 0 {
+				every = n
+			}
+			dur = dur[:i]
+		}
+		if d, err := time.ParseDuration(dur); err == nil {
 			envDelays[parts[0]] = d
+			envEvery[parts[0]] = every
 		}
 	}
 	if v, err := strconv.ParseInt(os.Getenv("VERIF_HOOK_YIELD"), 10, 64); err == nil {
@@ -55,6 +67,12 @@ func loadEnv() {
 func defaultHandler(name string) {
 	envOnce.Do(loadEnv)
 	if d, ok := envDelays[name]; ok {
+		if every := envEvery[name]; every > 1 {
+			c, _ := envHits.LoadOrStore(name, new(uint64))
+			if atomic.AddUint64(c.(*uint64), 1)%every != 0 {
+				return
+			}
+		}
 		time.Sleep(d)
 		return
 	}
